@@ -108,6 +108,19 @@ func vpInScanImage(k SyntaxKind) bool {
 func VP_C14_scanstep() {
 	L := vpParam("L")
 	text := vpBytes("t", L)
+	if vpParam("ESC") == 1 {
+		// escape-sequence alphabet (longer texts at the same cost): quotes, backslash, the escape
+		// letters, hex and non-hex letters and digits, braces
+		for _, c := range text {
+			ok := false
+			for _, a := range []byte("'\"\\xu0a9fgzG{}_n") {
+				if c == a {
+					ok = true
+				}
+			}
+			vpAssume(ok)
+		}
+	}
 	p := vpChoice("p", L+1)
 	errOK := true
 	s := CreateScanner(text, func(m *DiagnosticMessage, pos int, length int) {
